@@ -497,9 +497,12 @@ def make_fixtures(d):
     return sorted(os.listdir(d))
 
 
-def subst(args, d):
-    """replace the placeholder {D} by the fixture directory"""
-    return [a.replace('{D}', d) if isinstance(a, str) else a for a in args]
+def subst(args, d, out=None):
+    """replace the placeholder {D} by the fixture directory ({D}/out by a private output directory)"""
+    if out is None:
+        out = os.path.join(d, 'out', 'p{}'.format(os.getpid()))
+    os.makedirs(out, exist_ok=True)
+    return [a.replace('{D}/out', out).replace('{D}', d) if isinstance(a, str) else a for a in args]
 
 
 # ----------------------------------------------------------------------------------------
@@ -881,7 +884,8 @@ def eval_vector_inproc(v):
 
 
 def eval_vector_process(v, fixdir, hashseed='0', cwd=None):
-    args = subst(v['args'], fixdir)
+    os.makedirs(os.path.join(fixdir, 'out'), exist_ok=True)
+    args = subst(v['args'], fixdir, tempfile.mkdtemp(dir=os.path.join(fixdir, 'out')))
     outfile = None
     for i, a in enumerate(args):
         if a in ('-o', '--output') and i + 1 < len(args):
